@@ -92,7 +92,10 @@ def run(chk, tier):
         if q != 0:
             cfgs.append(("interp-Q%d" % q, "interp", ("-Q%d" % q,)))
         cfgs.append(("c-Q%d" % q, "c", ("-Q%d" % q,)))
-    chk.extra["corpus"] = corpus.observe(chk, b, sample, cfgs, os.path.join(wd, "corpus"), "C03", "interp-Q0")
+    # observations are grouped by (program, level): the two routes must agree at each level (differences between levels
+    # are C02's subject)
+    chk.extra["corpus"] = corpus.observe(chk, b, sample, cfgs, os.path.join(wd, "corpus"), "C03", "interp-Q0",
+                                         group=lambda n, label: n + "@" + label.split("-")[-1])
     chk.extra["programs_by_status"] = per
     chk.extra["routes"] = [r[0] for r in routes]
     chk.rule = ("generated programs (half of them with the halt feature forced on) x optimisation levels x {interpret source, interpret saved "
